@@ -316,11 +316,9 @@ Section Roundtrip.
     rewrite (map_map_entries cn (path_join "" cn) fls).
     2:{ apply Forall_forall. intros f Hf. apply Hj. rewrite forallb_forall in Hfls.
         now destruct (wf_file_props f (Hfls f Hf)). }
-    f_equal. rewrite !map_app. simpl. f_equal. f_equal.
-    - destruct (String.eqb (m_api m) "v2"); [|reflexivity]. destruct lk; reflexivity.
-    - f_equal.
-      + rewrite !map_map. reflexivity.
-      + now rewrite app_nil_r.
+    cbn [deps_loop]. f_equal. rewrite !map_app, !map_map, ?app_nil_r. cbn [app map triple fst snd].
+    f_equal.
+    destruct (String.eqb (m_api m) "v2"); [destruct lk|]; reflexivity.
   Qed.
   Local Transparent path_join.
 
